@@ -85,12 +85,18 @@ func (g GroupedPoints) SetValue(v reflect.Value) error {
 		}
 		// If all points have tombstones, we just set the pointer to nil
 		if len(validFields) == 0 {
+			if !v.CanSet() {
+				return fmt.Errorf("cannot set value %v", v)
+			}
 			v.Set(reflect.Zero(t))
 			return nil
 		}
 		// If a valid point exists in the group, then initialize the pointer
 		// if needed
 		if v.IsNil() {
+			if !v.CanSet() {
+				return fmt.Errorf("cannot set value %v", v)
+			}
 			v.Set(reflect.New(t.Elem()))
 		}
 		v = v.Elem()
@@ -168,7 +174,12 @@ func (g GroupedPoints) SetValue(v reflect.Value) error {
 				}
 				// else only decrement i
 			}
-			v.Set(v.Slice(0, lastIndex+1))
+			if lastIndex+1 != v.Len() {
+				if !v.CanSet() {
+					return fmt.Errorf("cannot set value %v", v)
+				}
+				v.Set(v.Slice(0, lastIndex+1))
+			}
 		}
 	case reflect.Map:
 		// Ensure map is keyed by string
@@ -193,6 +204,10 @@ func (g GroupedPoints) SetValue(v reflect.Value) error {
 				return fmt.Errorf("cannot set value %v", v)
 			}
 			v.Set(reflect.MakeMapWithSize(t, len(g.Points)))
+		}
+		if !v.CanInterface() {
+			// reached through an unexported field: SetMapIndex would panic
+			return fmt.Errorf("cannot set value %v", v)
 		}
 		// Set map values
 		for _, p := range g.Points {
